@@ -6,16 +6,19 @@ Data that is translated: the `ColorChoice` enum, the arms of
 `AtomicChoice::{from_choice, to_choice}` and the initial value of `new()`.
 
 Source shapes that are only *checked* (GenError = broken tie otherwise):
- (i)   `impl AsLockedWrite for std::io::Stdout` / `Stderr`: the body of
-       `as_locked_write` is exactly `self.lock()`, the guard type is
-       `std::io::StdoutLock<'w>` / `StderrLock<'w>`;
- (ii)  every one of the five `Write` methods of `AutoStream` and of `StripStream`
-       takes the lock exactly once: its body contains exactly one
-       `as_locked_write()` call and no call of another `self.` write method, or
-       (`StripStream::write_vectored`) no such call and exactly one delegation
-       `self.<m>(..)` to a sibling method that locks once itself; in `AutoStream`
-       the single call sits in the `PassThrough` arm and the `Strip` arm forwards
-       the same method to the `StripStream`;
+ (i)   [REMOVED -- now carried by a translation + proof] `impl AsLockedWrite for std::io::Stdout` / `Stderr` is
+       `self.lock()` with guard type `StdoutLock<'w>` / `StderrLock<'w>`: tools/gen_fn_glue.py translates every impl
+       (and checks the associated type), Proofs/GlueGen.v translated_as_locked_write_std / translated_stdout_lock_once
+       (Props/C19.v c19_translated_as_locked_write_std, c19_translated_stdout_lock_once).  Likewise the bodies of
+       `anstream::stdout()` / `stderr()`: GlueFn + translated_stdout_is_auto / translated_stderr_is_auto;
+ (ii)  [body pins REMOVED -- now carried by a translation + proof] every one of the five `Write` methods of
+       `AutoStream` and of `StripStream` takes the lock exactly once, around its inner calls: the LOCK translation
+       `gl_*` of tools/gen_fn_auto.py (the same Rust text over a raw stream that logs its lock events, since the
+       leftovers round including StripStream::write_vectored and, through Generated/FmtFn.v, the closure + Adapter
+       of write_fmt) and Proofs/AutoGen.v translated_ops_lock_once / translated_strip_lock_once (Props/C19.v
+       c19_translated_ops_lock_once, c19_translated_strip_lock_once) say exactly that, for any body that means the same.
+       What stays checked here: each of the two `impl io::Write` blocks defines EXACTLY these five methods (a sixth,
+       e.g. an overridden `write_all_vectored`, would be a Write method nobody translated);
  (iii) `AtomicChoice::get` loads and `set` stores with `Ordering::SeqCst`, and
        `ColorChoice::{global, write_global}` are `USER.get()` / `USER.set(self)`
        on a `static USER: AtomicChoice`.
@@ -61,15 +64,6 @@ def _norm(s):
     return re.sub(r"\s+", " ", s).strip()
 
 
-def _check_std_lock(stream, which):
-    body = _impl_block(stream, r"impl\s+AsLockedWrite\s+for\s+std::io::%s\s*\{" % which, "impl AsLockedWrite for std::io::%s" % which)
-    if not re.search(r"type\s+Write<'w>\s*=\s*std::io::%sLock<'w>\s*;" % which, body):
-        raise GenError("AsLockedWrite for %s: the guard type is not std::io::%sLock<'w>" % (which, which))
-    fb = fn_body(body, "as_locked_write", "AsLockedWrite for %s::as_locked_write" % which)
-    if _norm(fb) != "self.lock()":
-        raise GenError("AsLockedWrite for %s: body of as_locked_write is %r, expected `self.lock()`" % (which, _norm(fb)[:80]))
-
-
 def _write_methods(src, header_re, what):
     """{method: body} of the five methods of an `impl std::io::Write for ...` block"""
     body = _impl_block(src, header_re, what)
@@ -79,71 +73,12 @@ def _write_methods(src, header_re, what):
     return {m: fn_body(body, m, "%s::%s" % (what, m)) for m in METHODS}
 
 
-def _lock_shape(bodies, what):
-    """per method: ("lock",) when it calls as_locked_write() once, ("via", m) when it
-    delegates once to a sibling"""
-    shape = {}
-    for m in METHODS:
-        b = bodies[m]
-        locks = len(re.findall(r"\bas_locked_write\s*\(\s*\)", b))
-        if len(re.findall(r"\block\s*\(", b)) or "as_locked_write" in re.sub(r"\bas_locked_write\s*\(\s*\)", "", b):
-            raise GenError("%s::%s: unexpected lock expression" % (what, m))
-        deleg = re.findall(r"\bself\s*\.\s*(%s)\s*\(" % "|".join(METHODS), b)
-        if locks == 1 and not deleg:
-            shape[m] = ("lock",)
-        elif locks == 0 and len(deleg) == 1 and deleg[0] != m:
-            shape[m] = ("via", deleg[0])
-        else:
-            raise GenError("%s::%s: expected exactly one as_locked_write() call (or one delegation to a sibling method), found %d call(s) and delegations %r"
-                           % (what, m, locks, deleg))
-        if re.search(r"\b(loop|while|for)\b", b) and locks:
-            raise GenError("%s::%s: the lock is taken next to a loop" % (what, m))
-    for m, s in shape.items():
-        if s[0] == "via" and shape[s[1]] != ("lock",):
-            raise GenError("%s::%s delegates to %s which does not lock once" % (what, m, s[1]))
-    return shape
-
-
 def _check_auto(auto):
-    bodies = _write_methods(auto, r"impl<S>\s+std::io::Write\s+for\s+AutoStream<S>\s+where\s+S:\s*RawStream\s*\+\s*AsLockedWrite\s*,?\s*\{", "impl Write for AutoStream")
-    shape = _lock_shape(bodies, "AutoStream")
-    args = {"write": "buf", "write_vectored": "bufs", "flush": "", "write_all": "buf", "write_fmt": "args"}
-    for m in METHODS:
-        if shape[m] != ("lock",):
-            raise GenError("AutoStream::%s: does not lock directly" % m)
-        b = _norm(re.sub(r"#\[cfg\(all\(windows, feature = \"wincon\"\)\)\]\s*StreamInner::Wincon\(w\)\s*=>\s*w\.%s\(%s\),?" % (m, args[m]), "", bodies[m]))
-        want = "match &mut self.inner { StreamInner::PassThrough(w) => w.as_locked_write().%s(%s), StreamInner::Strip(w) => w.%s(%s), }" % (m, args[m], m, args[m])
-        if b != want:
-            raise GenError("AutoStream::%s: unexpected body %r" % (m, b[:160]))
-    return shape
+    _write_methods(auto, r"impl<S>\s+std::io::Write\s+for\s+AutoStream<S>\s+where\s+S:\s*RawStream\s*\+\s*AsLockedWrite\s*,?\s*\{", "impl Write for AutoStream")
 
 
 def _check_strip(strip):
-    bodies = _write_methods(strip, r"impl<S>\s+std::io::Write\s+for\s+StripStream<S>\s+where\s+S:\s*std::io::Write\s*,\s*S:\s*AsLockedWrite\s*,?\s*\{", "impl Write for StripStream")
-    shape = _lock_shape(bodies, "StripStream")
-    want = {
-        "write": "write(&mut self.raw.as_locked_write(), &mut self.state, buf)",
-        "write_all": "write_all(&mut self.raw.as_locked_write(), &mut self.state, buf)",
-        "write_fmt": "write_fmt(&mut self.raw.as_locked_write(), &mut self.state, args)",
-        "flush": "self.raw.as_locked_write().flush()",
-    }
-    for m, w in want.items():
-        if _norm(bodies[m]) != w:
-            raise GenError("StripStream::%s: unexpected body %r (expected %r)" % (m, _norm(bodies[m])[:160], w))
-    if shape["write_vectored"] != ("via", "write") or not _norm(bodies["write_vectored"]).endswith("self.write(buf)"):
-        raise GenError("StripStream::write_vectored: expected a single delegation `self.write(buf)`")
-    # the free functions behind them work on the guard they are handed and never lock
-    for f in ("write", "write_all", "write_fmt"):
-        m = re.search(r"\nfn\s+%s\s*\(\s*raw:\s*&mut dyn std::io::Write\s*," % f, strip)
-        if not m:
-            raise GenError("strip.rs: free fn %s(raw: &mut dyn std::io::Write, ..) not found" % f)
-        fb = _block(strip, m.end(), "strip.rs fn " + f)
-        if "as_locked_write" in fb or re.search(r"\block\s*\(", fb):
-            raise GenError("strip.rs: free fn %s takes a lock itself" % f)
-    fb = _norm(_block(strip, re.search(r"\nfn\s+write_fmt\s*\(", strip).end(), "strip.rs fn write_fmt"))
-    if fb != "let write_all = |buf: &[u8]| write_all(raw, state, buf); crate::fmt::Adapter::new(write_all).write_fmt(args)":
-        raise GenError("strip.rs: free fn write_fmt: unexpected body %r" % fb[:160])
-    return shape
+    _write_methods(strip, r"impl<S>\s+std::io::Write\s+for\s+StripStream<S>\s+where\s+S:\s*std::io::Write\s*,\s*S:\s*AsLockedWrite\s*,?\s*\{", "impl Write for StripStream")
 
 
 def _check_choice(cc):
@@ -210,26 +145,17 @@ def _check_choice(cc):
 
 
 def gen_locking():
-    stream = strip_comments(read("crates/anstream/src/stream.rs"))
     auto = strip_comments(read("crates/anstream/src/auto.rs"))
     strip = strip_comments(read("crates/anstream/src/strip.rs"))
     cc = strip_comments(read("crates/colorchoice/src/lib.rs"))
-    lib = strip_comments(read("crates/anstream/src/lib.rs"))
-    for which in ("Stdout", "Stderr"):
-        _check_std_lock(stream, which)
-    # anstream::stdout()/stderr() hand AutoStream the std handles
-    for name, which in (("stdout", "Stdout"), ("stderr", "Stderr")):
-        b = _norm(fn_body(lib, name, "anstream::" + name))
-        if b != "let %s = std::io::%s(); AutoStream::auto(%s)" % (name, name, name):
-            raise GenError("anstream::%s: unexpected body %r" % (name, b[:120]))
-    sa = _check_auto(auto)
-    ss = _check_strip(strip)
+    _check_auto(auto)
+    _check_strip(strip)
     init, frm, to = _check_choice(cc)
-    o = [HEADER % "crates/colorchoice/src/lib.rs (data); crates/anstream/src/{stream.rs,auto.rs,strip.rs,lib.rs} (shape checks only)"]
+    o = [HEADER % "crates/colorchoice/src/lib.rs (data); crates/anstream/src/{auto.rs,strip.rs} (shape checks only)"]
     o.append("(* Checked source shapes (tools/gen_locking.py raises a GEN-ERROR otherwise):")
-    o.append("   - impl AsLockedWrite for std::io::Stdout / Stderr: as_locked_write is `self.lock()`;")
-    o.append("   - lock acquisitions per Write method, AutoStream: %s;" % ", ".join("%s=%s" % (m, "1" if sa[m] == ("lock",) else "via " + sa[m][1]) for m in METHODS))
-    o.append("   - lock acquisitions per Write method, StripStream: %s;" % ", ".join("%s=%s" % (m, "1" if ss[m] == ("lock",) else "via " + ss[m][1]) for m in METHODS))
+    o.append("   - `impl io::Write for AutoStream` / `for StripStream` define exactly the methods %s" % ", ".join(METHODS))
+    o.append("     (that each takes the lock exactly once is PROVED about their translation: Generated/AutoFn.v gl_*,")
+    o.append("     Proofs/AutoGen.v translated_ops_lock_once; as_locked_write of Stdout / Stderr: Generated/GlueFn.v);")
     o.append("   - AtomicChoice::get / set: one load / store with Ordering::SeqCst; global / write_global go through them. *)")
     o.append("From Coq Require Import NArith List.\nImport ListNotations.\nLocal Open Scope N_scope.\n")
     o.append("(* pub enum ColorChoice *)")
@@ -241,7 +167,4 @@ def gen_locking():
     o.append("Definition lk_to_choice (n : N) : option lk_choice :=\n  match n with\n" + "\n".join("  | %d => Some Lk%s" % a for a in to) + "\n  | _ => None\n  end.\n")
     o.append("(* AtomicChoice::new: the value the process starts with *)")
     o.append("Definition lk_choice_init : lk_choice := Lk%s.\n" % init)
-    o.append("(* number of lock acquisitions the source performs per Write method, in the order\n   write, write_vectored, flush, write_all, write_fmt (a delegating method counts the\n   acquisitions of the method it forwards to) *)")
-    o.append("Definition lk_src_locks_auto : list N := [%s]." % "; ".join("1" for _ in METHODS))
-    o.append("Definition lk_src_locks_strip : list N := [%s].\n" % "; ".join("1" for _ in METHODS))
     return "\n".join(o)
